@@ -3,6 +3,7 @@
 package cookie
 
 import (
+	"sort"
 	"crypto/hmac"
 	"crypto/sha256"
 	"encoding/base64"
@@ -258,6 +259,30 @@ func vSaveLoadStep(t *testing.T, out *vEmitter, r *rand.Rand, s *SessionStore, c
 	secret := c.opts.Secret
 	name := c.opts.Name
 	var last []byte
+	var jops []vsx
+	defer func() {
+		// the whole history through the jar model (Model/JarSession.jar_run from the empty jar) against
+		// what the real net/http/cookiejar holds at the end
+		if c.opts.Expire != 0 && c.opts.Expire <= 40*time.Second {
+			return
+		}
+		var have [][2]string
+		for _, ck := range b.jar.Cookies(b.u) {
+			have = append(have, [2]string{ck.Name, ck.Value})
+		}
+		sort.Slice(have, func(i, j int) bool {
+			if have[i][0] != have[j][0] {
+				return have[i][0] < have[j][0]
+			}
+			return have[i][1] < have[j][1]
+		})
+		items := make([]vsx, len(have))
+		for i, h := range have {
+			items[i] = vL(vS(h[0]), vS(h[1]))
+		}
+		out.Case(label+"/jar", true, vSome(vL(items...)),
+			vL("jar_run", vTable(macs), vCfgSX(c.opts), vS(c.host), vL(jops...)))
+	}()
 	for step, n := range ops {
 		req := b.request()
 		presented := req.Cookies()
@@ -273,6 +298,7 @@ func vSaveLoadStep(t *testing.T, out *vEmitter, r *rand.Rand, s *SessionStore, c
 			out.Case(label+"/clear", true, vStrs(vHeaders(rw)),
 				vL("cs_clear", vCfgSX(c.opts), vS(c.host), vCookiesSX(presented), vL()))
 			last = nil
+			jops = append(jops, vL("clear"))
 		} else {
 			val := vRandBytes(r, n)
 			created := time.Now().Add(-time.Duration(r.Intn(30)) * time.Second).Truncate(time.Second)
@@ -285,6 +311,7 @@ func vSaveLoadStep(t *testing.T, out *vEmitter, r *rand.Rand, s *SessionStore, c
 			out.Case(label+"/save", true, vSome(vStrs(vHeaders(rw))),
 				vL("cs_save", vTable(macs), vCfgSX(c.opts), vS(c.host), vCookiesSX(presented), vB(val), vI(created.Unix())))
 			last = val
+			jops = append(jops, vL("save", vB(val), vI(created.Unix())))
 			for _, h := range vHeaders(rw) {
 				if len(h) > 4096 {
 					out.Violation("cookie-store/oversize-cookie", "a Set-Cookie header exceeds 4096 bytes",
